@@ -41,3 +41,39 @@ PROPS = {
     "C13": _sm("AutonomousStateMachine driven through on_enable/on_iteration/on_disable protocols incl. repeated periods and disabling mid-run; non-trivial = the run ended (done/expiry/disable) with further iterations; distinct = distinct trace shape",
                ["stop_inside_iteration", "on_enable"]),
 }
+
+REAL_STUB_ROBOT = {
+    "real": ["magicbot.MagicRobot.startCompetition and everything it calls (mode switching, injection, tunables, feedbacks, will_reset_to, SimpleWatchdog)",
+             "robotpy_ext.autonomous.AutonomousModeSelector on a real package directory", "robotpy_ext.misc.NotifierDelay on the real HAL notifier",
+             "WPILib HAL simulation (clock, notifier alarms, driver-station data), ntcore local instance, SmartDashboard, SendableChooser"],
+    "simulated": ["driver station (control words via DriverStationSim at scheduler-chosen call sites)", "whoever wakes a sleeping notifier (scheduler advances the paused clock)",
+                  "the user's robot, components, autonomous modes (generated; every callback is a yield point)", "dashboard writing 'Auto Selector'", "endCompetition() caller"],
+}
+ENGINE_TEXT["robot"] = "whole MagicRobot lifetime on the main thread with hal.waitForNotifierAlarm inverted into the scheduler; generated robot/components/modes; DS packets, stalls, late wake-ups, raising callbacks, shutdown at arbitrary call sites"
+
+def _robot(rule, probes, level_text, quick=4000, thorough=200000, level="exploration"):
+    return {
+        "engine": "robot", "level": level, "rule": rule,
+        "level_text": level_text,
+        "level_note": "trusted: WPILib HAL simulation (clock, notifiers, DS data) and local ntcore; the reference model/invariants in /verif/models; <=5 components, <=3 autonomous modes, <=45 loop iterations per lifetime",
+        "quick": {"runs": quick, "wall_s": 150}, "thorough": {"runs": thorough, "wall_s": 1500},
+        "probes_expected": probes,
+        "state_measure": "(mode shown in /robot/mode, callback role) pairs and their successions along the expected log, hashed",
+        "real_vs_stub": REAL_STUB_ROBOT,
+        "assumptions": ["single robot thread; driver-station packets carry one of disabled/teleop/auto/test (never auto+test together)",
+                        "events inside feedback getters are limited to raising", "autonomous mode chosen by DEFAULT flag or the 'Auto Selector' string (chooser selection is C14's)"],
+    }
+
+_ROBOT_LT = "seeded search over whole robot lifetimes: driver-station packets at any wake-up or inside any callback, slow callbacks, late wake-ups, shutdown anywhere, raising callbacks; the observed callback log, clock, /robot/mode, attribute values and NetworkTables entries are compared with an executable model of the mode-switching contract and with model-independent invariants; sampling, not proof"
+PROPS.update({
+    "C05": _robot("seeded robot layouts + event tables; non-trivial = at least 2 components and 2 different modes with iterations; distinct = distinct expected callback-role sequence",
+                  ["session_auto", "session_teleop", "session_test", "session_disabled", "enabled_to_enabled_switch"], _ROBOT_LT),
+    "C06": _robot("as C05, lifecycle-heavy layouts; non-trivial = a direct enabled->enabled switch or a zero/one-iteration session; distinct = distinct expected callback-role sequence",
+                  ["zero_iteration_session", "one_iteration_session", "enabled_to_enabled_switch", "test_to_enabled_switch", "ended_by_endCompetition_event"], _ROBOT_LT),
+    "C07": _robot("as C05 plus raise events at the property's callback sites (first / later / every visit, 1-3 sites, FMS attached or not, FMS flips); non-trivial = a fault fired at a reached site; distinct = distinct expected callback-role sequence",
+                  ["faults_swallowed_run", "exception_left_robot_program"], _ROBOT_LT),
+    "C10": _robot("as C05 plus assignments to marked/unmarked attributes from teleopPeriodic / mode / components and raising callbacks; non-trivial = enabled iterations with markers present; distinct = distinct expected callback-role sequence",
+                  ["iterations"], _ROBOT_LT),
+    "C11": _robot("as C05 with feedback-heavy layouts and raising getters; non-trivial = feedbacks present and at least 2 modes with iterations; distinct = distinct expected callback-role sequence",
+                  ["iterations"], _ROBOT_LT),
+})
